@@ -15,11 +15,12 @@ RULE = ("encode: _encode_encrypted_request(counter, payload) for every payload l
         "tag over header+plaintext, counter, minimal padding); decode: reference-built encrypted responses for every length through "
         "_process_packet must yield exactly the payload, and through the connection's receive path (data_received in 1-4 segments, then read(); also responses searched to contain 83 70 inside ciphertext/tag, cut around that position) together with a following response; wire: both directions through LAN.send on an authenticated simulated V3 "
         "connection; tamper (the genuine response is accepted on the same protocol object before and between the altered copies): every single-bit flip of header, ciphertext and tag of a response (one length per residue) must give "
-        "ProtocolError from _process_packet (type-nibble flips judged at LAN.send level, where marker/size flips may also end in "
+        "ProtocolError from _process_packet (type-nibble flips judged at LAN.send level, where marker/size/magic-byte flips may also end in "
         "TimeoutError because no packet is ever framed). distinct = (kind, length, counter/bit); non-trivial = all")
 ASSUMPTIONS = ["mv/ref/v3.py is a correct reading of the V3 packet overview",
                "_encode_encrypted_request/_process_packet/_local_key are the names pinned by the repository's tests",
-               "tamper through LAN.send: marker/size bit flips may end in TimeoutError (framing never completes)"]
+               "tamper through LAN.send: flips of the bytes a framer may key on (marker, size, fixed magic byte) may end in TimeoutError (no packet is ever framed); "
+               "through _process_packet every flip must give ProtocolError"]
 ANCHORS = ["lan.py:_LanProtocolV3._encode_encrypted_request", "lan.py:_LanProtocolV3._decode_encrypted_response",
            "lan.py:_LanProtocolV3._process_packet", "lan.py:LAN.send"]
 MIN_NONTRIVIAL = {"quick": 8000, "thorough": 100000}
@@ -350,7 +351,7 @@ def _tamper_wire(ctx, case):
             return await lan.send(b"\xaa\x0b\xac" + bytes(8))
 
         k = ("tamper-wire", case["frame_len"], pos, bit)
-        framing = pos < 4
+        framing = pos < 5          # marker, size and the fixed magic byte: what a framer may use to find packets in the stream
         try:
             got, loop = H.run_virtual(go, net)
         except ProtocolError:
